@@ -1,3 +1,4 @@
+import Varint.Lemmas.FloatDec
 import Varint.Model.Float
 /-
   C07 — float codec: full mode bit-exact, lossy modes within the stated error.
@@ -124,5 +125,35 @@ theorem float_auto_bound (e : Nat) (hpos : 0 < e) (hfin : e < 2047 * 2 ^ 52) :
 example : roundTripOne 1 0x3FFFFFFFFFFF2108 = 0x4000000000000000 := by decide
 example : isSpecial 0x7FF8000000000001 = true ∧ isSpecial 1 = true ∧ isSpecial 0x3FF0000000000000 = false := by decide
 example : selectPrecision 0x3E112E0BE826D695 = 0 := by decide   -- 1e-9 → FULL
+
+
+/-! ## array framing: decoding the encoder's bytes yields, in order, what each value decodes to — every
+    precision byte, every exponent mode, every array the C accepts (count·8 must not overflow size_t,
+    i.e. count < 2^61; at or above that both directions refuse). The decoder consumes exactly the bytes
+    written; whatever follows them is irrelevant. -/
+
+theorem float_array_roundtrip (p mode : Nat) (hm : mode ≤ 2) (ds : List Nat) (hne : ds ≠ [])
+    (hd : ∀ d ∈ ds, d < 2 ^ 64) (hlen : ds.length < 2 ^ 61) (rest : List Nat) :
+    decFull (enc p mode ds ++ rest) ds.length = some (ds.map (roundTripOne p), rest) :=
+  decFull_enc p mode hm ds hne hd hlen rest
+
+/-- in FULL precision the whole array is reproduced bit for bit (NaN payloads, infinities, signed zeros,
+    subnormals included), in all three exponent modes -/
+theorem float_array_full_exact (mode : Nat) (hm : mode ≤ 2) (ds : List Nat) (hne : ds ≠ [])
+    (hd : ∀ d ∈ ds, d < 2 ^ 64) (hlen : ds.length < 2 ^ 61) (rest : List Nat) :
+    dec (enc 0 mode ds ++ rest) ds.length = some ds := by
+  rw [dec_enc 0 mode (by omega) hm ds hne hd hlen rest]
+  congr 1
+  have : ∀ (l : List Nat), (∀ d ∈ l, d < 2 ^ 64) → l.map (roundTripOne 0) = l := by
+    intro l
+    induction l with
+    | nil => intro _; rfl
+    | cons a t ih =>
+      intro h
+      rw [List.map_cons, float_full_exact a (h a (by simp)), ih (fun d hd' => h d (by simp [hd']))]
+  exact this ds hd
+
+theorem float_refuses_huge (bs : List Nat) (count : Nat) (h : 2 ^ 61 ≤ count) : dec bs count = none :=
+  dec_refuses_huge bs count h
 
 end Varint.Props.C07
